@@ -1,10 +1,19 @@
 (* Executable checkers used by the codec correspondence runs (gen/c15.py, gen/c20.py): the real
    Serialize / Deserialize results are compared with encode / decode on the generated formats inside
    Coq by vm_compute.  Definitions only. *)
-From Coq Require Import ZArith String List Bool.
+From Coq Require Import ZArith Ascii String List Bool.
 From V.model Require Import CodecDSL.
 Import ListNotations.
 Open Scope Z_scope.
+
+(* byte strings are written as hex string literals in the generated case files (fast to parse) *)
+Definition hexv (c : Ascii.ascii) : Z :=
+  let n := Z.of_N (Ascii.N_of_ascii c) in if n <? 58 then n - 48 else n - 87.
+Fixpoint hexb (s : string) : bytes :=
+  match s with
+  | String a (String b r) => (16 * hexv a + hexv b) :: hexb r
+  | _ => []
+  end.
 
 Fixpoint zs_eqb (a b : bytes) : bool :=
   match a, b with
